@@ -1,6 +1,7 @@
 (** C17 — case type and verdict functions evaluated by [bin/check] on the
     observations of the Go driver (harness/cmd/c17). *)
-From Verif Require Import Base.Prelude Gen.Constants Model.UdpTc.
+From Verif Require Import Base.Prelude Gen.Constants.
+From Verif Require Export Model.UdpTc.  (* case literals use [mkHeader] *)
 Open Scope N_scope.
 
 (** ** What the harness servers were told to do *)
